@@ -232,6 +232,10 @@ func buildProposal(w *World, a propAbs, h, i, s *Party, parentID channel.ID, oth
 			im = [][]channel.Index{{0, 1}, {2, 0}}
 		case "long":
 			im = [][]channel.Index{{0, 1}, {1, 0, 1}}
+		case "dup0":
+			im = [][]channel.Index{{0, 1}, {0, 0}}
+		case "dup1":
+			im = [][]channel.Index{{0, 1}, {1, 1}}
 		}
 		return &client.VirtualChannelProposalMsg{BaseChannelProposal: base, Proposer: sender.WalletAddr(), Peers: peers, Parents: parents, IndexMaps: im}, S
 	}
